@@ -16,7 +16,7 @@ expressions, every length test, the `Drain` argument, the dispatch bytes and the
 * dubbothrift: 4-byte message size (not counting itself) + 2-byte magic needed; body stage = bounds of the header
   (recovered panics) + thrift binary protocol (black box).
 * tars: TarsGo `TarsRequest` (4-byte total length, `< 4` or `> maxPackageLength` ⇒ PACKAGE_ERROR, which `Decode` maps to
-  "need more data" — quirk kept); body stage = TarsGo packet reader (black box).
+  a decode error — regenerated flag `tars_packageErrorFails`; it was "need more data" before the [c08l9] fix); body stage = TarsGo packet reader (black box).
 
 Integers: lengths are `Nat` (Go: `int` is 64-bit; the `uint32` sums in dubbo/dubbothrift `decodeFrame` are exact for
 buffers below 4 GiB).  Core Lean only.
@@ -149,7 +149,8 @@ def frameStep_thrift (oracle : Bytes → Bool) : Bytes → Step Bytes := envelop
 def tarsHdr (b : Bytes) : Hdr :=
   if b.length < tars_lenFieldSize then .needMore else            -- PACKAGE_LESS
   let n := be b 0 tars_lenFieldSize
-  if n < tars_minPackageLength ∨ n > tars_maxPackageLength then .needMore else   -- PACKAGE_ERROR ⇒ (nil, nil) !
+  if n < tars_minPackageLength ∨ n > tars_maxPackageLength then      -- PACKAGE_ERROR: [c08l9] a decode error since fix
+    (if tars_packageErrorFails then .error else .needMore) else      --   'tars invalid package length' (regenerated; before: nil, nil)
   if b.length < n then .needMore else .len n                     -- PACKAGE_LESS / PACKAGE_FULL
 
 def frameStep_tars (oracle : Bytes → Bool) : Bytes → Step Bytes := envelope tarsHdr oracle
